@@ -16,7 +16,7 @@ use std::io::Cursor;
 const WINDOW: u32 = 50_000;
 const DYADIC: &[f32] = &[1.0, 2.0, 3.0, 0.5, 0.25, -1.0, -2.5, 4.0, 7.0, 10.0, 100.0, 0.125, -0.5, 1.5, 6.0];
 
-fn gen_stream(r: &mut Rng, span: u32, cancel_of: Option<&[Value]>) -> Vec<Value> {
+fn gen_stream(r: &mut Rng, span: u32, cancel_of: Option<&[Value]>, scale: f32) -> Vec<Value> {
     if let Some(other) = cancel_of {
         // the negative of part of another stream (sums cancel to 0 there)
         return other.iter().filter(|_| r.chance(2, 3)).map(|v| Value { start: v.start, end: v.end, value: -v.value }).collect();
@@ -40,7 +40,7 @@ fn gen_stream(r: &mut Rng, span: u32, cancel_of: Option<&[Value]>) -> Vec<Value>
         if end <= pos {
             break;
         }
-        let value = if r.chance(1, 12) { 0.0 } else { *r.pick(DYADIC) };
+        let value = if r.chance(1, 12) { 0.0 } else { *r.pick(DYADIC) * scale };
         v.push(Value { start: pos, end, value });
         let gap = match r.below(8) {
             0 => 0,
@@ -57,9 +57,12 @@ pub fn c15m(ctx: &Ctx, begin: &mut dyn FnMut(J)) -> Outcome {
     let mut r = Rng::derive(ctx.seed, 0xC15, ctx.case);
     let span = *r.pick(&[60_000u32, 120_000, 260_000, 49_999, 50_000, 50_001, 100_000]);
     let k = r.range(1, 6) as usize;
+    // one case in five uses the same dyadic values scaled by 2^-64 (p-value-like magnitudes, sums still exact):
+    // "equal" and "zero" must mean exactly that, not "closer than some epsilon"
+    let scale: f32 = if r.chance(1, 5) { f32::from_bits((127 - 64) << 23) } else { 1.0 };
     let mut streams: Vec<Vec<Value>> = vec![];
     for i in 0..k {
-        let s = if i > 0 && r.chance(1, 5) { gen_stream(&mut r, span, Some(&streams[i - 1].clone())) } else { gen_stream(&mut r, span, None) };
+        let s = if i > 0 && r.chance(1, 5) { gen_stream(&mut r, span, Some(&streams[i - 1].clone()), scale) } else { gen_stream(&mut r, span, None, scale) };
         streams.push(s);
     }
     begin(J::obj().set("span", span.into()).set("streams", J::A(streams.iter().map(|s| J::A(s.iter().take(40).map(|v| J::A(vec![v.start.into(), v.end.into(), J::F(v.value as f64)])).collect())).collect())));
@@ -152,6 +155,7 @@ pub fn c15m(ctx: &Ctx, begin: &mut dyn FnMut(J)) -> Outcome {
     if streams.iter().any(|s| s.first().map(|v| v.start == 0).unwrap_or(false)) {
         out.tag("starts_at_base_0");
     }
+    out.tag(if scale == 1.0 { "magnitude:unit" } else { "magnitude:2^-64" });
     out
 }
 
